@@ -321,7 +321,8 @@ def render(prog, stage_src="vstage", invocation=True, include_call=True, stage_l
         out.append("    src %s %s," % (stage_lang, q(stage_src + " " + st["name"])))
         if st["split"]:
             out.append(") split (")
-            out.append("    in  int ci,")
+            if not st.get("nochunkparams"):
+                out.append("    in  int ci,")
             for p in st["couts"]:
                 out.append("    out %s %s," % (type_str(p["t"]), p["n"]))
         mods = []
